@@ -39,6 +39,7 @@ type tapLog struct {
 	onPoint       func(point string, p peer.ID, c cid.Cid) cid.Cid
 	hold          map[string]chan struct{} // points currently gated: the tap blocks until the channel is closed
 	reached       map[string]chan struct{} // closed when a gated point is first reached
+	once          map[string]bool          // gate holds only the first goroutine to arrive
 }
 
 func goroutineID() int {
@@ -54,7 +55,7 @@ func goroutineID() int {
 
 func installTap(c *vf.Ctx, seed int64, delayPermille int) *tapLog {
 	tl := &tapLog{c: c, r: rand.New(rand.NewSource(seed)), delayPermille: delayPermille, noDelay: map[string]bool{},
-		hold: map[string]chan struct{}{}, reached: map[string]chan struct{}{}}
+		hold: map[string]chan struct{}{}, reached: map[string]chan struct{}{}, once: map[string]bool{}}
 	dagsync.SetVerifTap(func(point string, p peer.ID, cd cid.Cid) {
 		var aux cid.Cid
 		if tl.onPoint != nil {
@@ -75,6 +76,9 @@ func installTap(c *vf.Ctx, seed int64, delayPermille int) *tapLog {
 				default:
 					close(rc)
 				}
+			}
+			if tl.once[point] {
+				delete(tl.hold, point) // later arrivals pass
 			}
 		}
 		tl.mu.Unlock()
@@ -114,6 +118,20 @@ func (tl *tapLog) gate(point string) (reached <-chan struct{}, release func()) {
 			tl.mu.Unlock()
 			close(g)
 		})
+	}
+}
+
+// gateOnce is gate, but only the first goroutine to arrive is held.
+func (tl *tapLog) gateOnce(point string) (reached <-chan struct{}, release func()) {
+	tl.mu.Lock()
+	tl.once[point] = true
+	tl.mu.Unlock()
+	rc, rel := tl.gate(point)
+	return rc, func() {
+		rel()
+		tl.mu.Lock()
+		delete(tl.once, point)
+		tl.mu.Unlock()
 	}
 }
 
